@@ -16,14 +16,21 @@ type SchemaOpts struct {
 // Schema analysis, will classify the schema according to known
 // patterns.
 func Schema(opts SchemaOpts) (*AnalyzedSchema, error) {
+	return analyzeSchemaOpts(opts, make(map[string]struct{}))
+}
+
+// analyzeSchemaOpts classifies a schema, keeping track of the $ref currently being resolved
+// up the call stack, so that schemas which are arrays or maps of themselves do not recurse forever.
+func analyzeSchemaOpts(opts SchemaOpts, refsInProgress map[string]struct{}) (*AnalyzedSchema, error) {
 	if opts.Schema == nil {
 		return nil, ErrNoSchema
 	}
 
 	a := &AnalyzedSchema{
-		schema:   opts.Schema,
-		root:     opts.Root,
-		basePath: opts.BasePath,
+		schema:         opts.Schema,
+		root:           opts.Root,
+		basePath:       opts.BasePath,
+		refsInProgress: refsInProgress,
 	}
 
 	a.initializeFlags()
@@ -54,6 +61,9 @@ type AnalyzedSchema struct {
 	schema   *spec.Schema
 	root     interface{}
 	basePath string
+
+	// $ref being resolved by the callers of this analysis (cycle guard)
+	refsInProgress map[string]struct{}
 
 	hasProps           bool
 	hasAllOf           bool
@@ -102,17 +112,25 @@ func (a *AnalyzedSchema) inherits(other *AnalyzedSchema) {
 
 func (a *AnalyzedSchema) inferFromRef() error {
 	if a.hasRef {
+		ref := a.schema.Ref.String()
+		if _, circular := a.refsInProgress[ref]; circular {
+			// a container of itself: stop here, such a schema is not a simple one
+			return nil
+		}
+		a.refsInProgress[ref] = struct{}{}
+		defer delete(a.refsInProgress, ref)
+
 		sch := new(spec.Schema)
 		sch.Ref = a.schema.Ref
 		err := spec.ExpandSchema(sch, a.root, nil)
 		if err != nil {
 			return err
 		}
-		rsch, err := Schema(SchemaOpts{
+		rsch, err := analyzeSchemaOpts(SchemaOpts{
 			Schema:   sch,
 			Root:     a.root,
 			BasePath: a.basePath,
-		})
+		}, a.refsInProgress)
 		if err != nil {
 			// NOTE(fredbi): currently the only cause for errors is
 			// unresolved ref. Since spec.ExpandSchema() expands the
@@ -156,11 +174,11 @@ func (a *AnalyzedSchema) inferMap() error {
 
 	// maps
 	if a.schema.AdditionalProperties.Schema != nil {
-		msch, err := Schema(SchemaOpts{
+		msch, err := analyzeSchemaOpts(SchemaOpts{
 			Schema:   a.schema.AdditionalProperties.Schema,
 			Root:     a.root,
 			BasePath: a.basePath,
-		})
+		}, a.refsInProgress)
 		if err != nil {
 			return err
 		}
@@ -183,11 +201,11 @@ func (a *AnalyzedSchema) inferArray() error {
 	a.IsArray = a.isArrayType() && (a.schema.Items == nil || a.schema.Items.Schemas == nil)
 	if a.IsArray && a.hasItems {
 		if a.schema.Items.Schema != nil {
-			itsch, err := Schema(SchemaOpts{
+			itsch, err := analyzeSchemaOpts(SchemaOpts{
 				Schema:   a.schema.Items.Schema,
 				Root:     a.root,
 				BasePath: a.basePath,
-			})
+			}, a.refsInProgress)
 			if err != nil {
 				return err
 			}
